@@ -52,6 +52,21 @@ fn share_structure(ml: usize, rl: usize, t: u32) {
         assert!(e[64 + ml + i] == r[i] ^ out_byte(a + 3, i), "D = R xor keystream(K, C)");
         i += 1;
     }
+    // Strobe is a duplex: the capacity lanes (21..24) of a permutation input are the capacity
+    // lanes of the previous output of the same Strobe object.  This pins which object every
+    // call belongs to: 0..3 the transcript over (A, M, R), 4..7 the cipher keyed with K, and
+    // every coefficient draw continues the *transcript after M and R were absorbed*.
+    let chained = |child: usize, parent: usize| -> bool {
+        let (i, o) = unsafe { (RO_PRE[child], RO_OUT[parent]) };
+        i[21] == o[21] && i[22] == o[22] && i[23] == o[23] && i[24] == o[24]
+    };
+    assert!(chained(1, 0) && chained(2, 1) && chained(3, 2), "J and K are squeezed from one transcript");
+    assert!(chained(5, 4) && chained(6, 5) && chained(7, 6), "C and D come from one cipher object");
+    let mut c = 8;
+    while c < ncalls {
+        assert!(chained(c, if c == 8 { 3 } else { c - 1 }), "the coefficient stream continues the transcript that absorbed A, M and R (after J and K)");
+        c += 1;
+    }
     if t == 1 {
         // degree-0 polynomial: the value is the key element K || 0^8 itself (threshold 1
         // protects nothing, by definition); K is the PRF output of call 3
@@ -253,3 +268,48 @@ adss_stubs! {
     #[kani::unwind(5)]
     fn c02_gate_refusal_propagates() { gate() }
 }
+
+// ---------------------------------------------------------------------------
+// C01 / C02: what adss::recover hands to the Shamir layer
+// ---------------------------------------------------------------------------
+/// three shares with arbitrary points (any equality pattern, any order), the first share's
+/// threshold t in 1..=3: the Shamir layer is called with threshold t and receives at least
+/// min(t, #distinct points of the selection) distinct points — repeated or surplus reports
+/// never crowd out a distinct share, and the threshold is the recorded one
+fn selection3() {
+    let x0: [u64; 3] = kani::any();
+    let x1: [u64; 3] = kani::any();
+    let x2: [u64; 3] = kani::any();
+    let t: u32 = kani::any();
+    let t1: u32 = kani::any();
+    let t2: u32 = kani::any();
+    kani::assume(t >= 1 && t <= 3);
+    let mk = |x: [u64; 3], t: u32| {
+        adss::Share::verif_from_parts(t, star_sharks::Share { x: fp_from_limbs(x), y: Vec::new() }, Vec::new(), Vec::new(), [0u8; 64])
+    };
+    let v = [mk(x0, t), mk(x1, t1), mk(x2, t2)];
+    let eq = |a: [u64; 3], b: [u64; 3]| a[0] == b[0] && a[1] == b[1] && a[2] == b[2];
+    let e01 = eq(x0, x1);
+    let e02 = eq(x0, x2);
+    let e12 = eq(x1, x2);
+    let distinct: usize = 1 + (!e01) as usize + (!e02 && !e12) as usize;
+    let c = adss::recover(&v);
+    assert!(c.is_err());
+    let (rt, rn, rd, calls) = unsafe { (REC_T, REC_N, REC_DISTINCT, REC_CALLS) };
+    assert!(calls == 1, "the Shamir layer is consulted");
+    assert!(rt == t, "with the threshold recorded in the first share");
+    let need = if (t as usize) < distinct { t as usize } else { distinct };
+    assert!(rd >= need, "and receives every distinct point it needs: repeated or surplus shares never crowd out a distinct one");
+    assert!(rn <= 3);
+    kani::cover!(distinct == 2 && t == 2 && e01, "repeat first");
+    kani::cover!(distinct == 3 && t == 2, "surplus");
+    kani::cover!(distinct == 1 && t == 2, "too few");
+    core::mem::forget((v, c));
+}
+#[kani::proof]
+#[kani::stub(star_sharks::Sharks::recover, sharks_recover_record)]
+#[kani::stub(zeroize::optimization_barrier, barrier_noop)]
+#[kani::stub(<adss::AccessStructure as core::ops::Drop>::drop, drop_noop_access)]
+#[kani::stub(<adss::Commune as core::ops::Drop>::drop, drop_noop_commune)]
+#[kani::unwind(6)]
+fn c01_selection_reaches_shamir_3() { selection3() }
